@@ -26,7 +26,7 @@ PROPERTY THEOREMS (audited by ./check): C12_f64_round_err, C12_scale_roundtrip_r
 C12_helpers, C12_helpers_int64, C12_value_route, C12_validator, C12_csv, C12_slice, C12_unit_identity,
 C12_datetime, C12_semicircles, C12_typed, C12_typed_invalid, C12_typed_witness_fixed, C12_F07_witness_fixed,
 C12_typed_table, C12_typed_all, C12_typed_slice, C12_typed_array, C12_typed_slice_all, C12_native_table, C12_validator_dev,
-C12_validator_dev_std, C12_validator_seq, C12_csv_pairs, C12_csv_text, C12_csv_cell
+C12_validator_dev_std, C12_validator_dev_own, C12_validator_seq, C12_csv_pairs, C12_csv_text, C12_csv_cell
 -/
 namespace Fit.C12
 open Fit.F64 Fit.ScaleOffset Fit.Value Fit.C12L
@@ -410,6 +410,55 @@ theorem C12_validator_dev_std (st : VState) (devIdx num : Nat) (d : DevDesc)
       · rw [h] at hnu; cases hnu
       · exact h
   exact C12_validator_dev stdFactory st devIdx num d hddi hfind hn bt (s, o) hfac hpr ty hty p hp hbt hal
+
+/-- the helper round trip for a pair given by its exact values (no bit-level side condition) -/
+theorem helperRT_fin (ty : IntTy) (hty : ty.bits ≤ 32) (p : Nat) (hp : p < 2 ^ ty.bits) (s o : Nat) (S O : ℚ)
+    (hs : IsFin s S) (ho : IsFin o O) (ho64 : o < 2 ^ 64) (hS : 1 / 2 ≤ S) (hS' : S ≤ 2 ^ 17) (hO : |O| ≤ 2 ^ 10)
+    (hu : isUnit s o = false) : helperRT ty p s o = p := by
+  have hrb : (ty.toInt p).natAbs ≤ 2 ^ 32 :=
+    le_trans (toInt_natAbs_le ty p) (Nat.pow_le_pow_right (by norm_num) hty)
+  have hfin : IsFin (round (discard (apply (ofInt (ty.toInt p)) s o) s o)) ((ty.toInt p : Int) : ℚ) := by
+    simp only [ScaleOffset.discard, ScaleOffset.apply, hu, Bool.false_eq_true, if_false]
+    exact chain_fin _ (by omega) s o S O hs ho ho64 hS hS' hO
+  simp only [helperRT, discardScalar, Num.isInteger, if_true, conv, toF64]
+  rw [cvt_int ty hty _ _ hfin (toInt_inRange ty p), wrap_toInt ty p hp]
+
+/-- **C12_validator_dev_own.** A developer field whose description designates NO native field but carries a scale
+(uint8, 1…254) and an offset (int8) of its own: the value scaled with `float64(scale)`, `float64(offset)` is restored
+to the raw integer, for every such scale and offset (the unit pair included: the value is then never a float64),
+every integer type of at most 32 bits the description's base type restores to, every raw value. -/
+theorem C12_validator_dev_own (fac : Factory) (d : DevDesc)
+    (hn : ¬(d.nativeMesg ≠ Fit.Gen.mesgNumInvalid ∧ d.nativeField ≠ Fit.Gen.uint8Invalid))
+    (hso : d.scale ≠ Fit.Gen.uint8Invalid ∧ d.offset ≠ Fit.Gen.sint8Invalid) (hs1 : 1 ≤ d.scale) (hs2 : d.scale ≤ 254)
+    (ty : IntTy) (hty : ty.bits ≤ 32) (p : Nat) (hp : p < 2 ^ ty.bits) (hbt : tgtOfBaseType d.btId = some (.int ty)) :
+    validatorRestoreDev fac d (applyValue (scalarV ty p) (ofInt d.scale) (ofInt (IntTy.i8.toInt d.offset))) = scalarV ty p := by
+  unfold validatorRestoreDev
+  rw [if_neg hn, if_pos hso]
+  by_cases hu : isUnit (ofInt d.scale) (ofInt (IntTy.i8.toInt d.offset)) = true
+  · simp only [applyValue, hu, if_true]
+    cases ty <;> rfl
+  · have hu' : isUnit (ofInt d.scale) (ofInt (IntTy.i8.toInt d.offset)) = false := by simpa using hu
+    have hS := ofInt_fin (d.scale : Int) (by omega)
+    have hOb : (IntTy.i8.toInt d.offset).natAbs ≤ 2 ^ 8 := toInt_natAbs_le .i8 d.offset
+    have hO := ofInt_fin (IntTy.i8.toInt d.offset) (by omega)
+    have hOq : |((IntTy.i8.toInt d.offset : Int) : ℚ)| ≤ 2 ^ 10 := by
+      rw [← Int.cast_abs, ← Nat.cast_natAbs]
+      have : ((IntTy.i8.toInt d.offset).natAbs : ℚ) ≤ 2 ^ 8 := by exact_mod_cast hOb
+      linarith [show (2 : ℚ) ^ 8 ≤ 2 ^ 10 by norm_num]
+    have h1 : (1 : ℚ) / 2 ≤ ((d.scale : Int) : ℚ) := by
+      have : (1 : ℚ) ≤ ((d.scale : Int) : ℚ) := by exact_mod_cast hs1
+      linarith
+    have h2 : ((d.scale : Int) : ℚ) ≤ 2 ^ 17 := by
+      have : ((d.scale : Int) : ℚ) ≤ 254 := by exact_mod_cast hs2
+      linarith [show (254 : ℚ) ≤ 2 ^ 17 by norm_num]
+    have := helperRT_fin ty hty p hp _ _ _ _ hS hO (ofInt_lt64 _ (by omega)) h1 h2 hOq hu'
+    simp only [applyValue, hu', Bool.false_eq_true, if_false, scalarOf_scalarV, discardValue, hbt]
+    simp only [helperRT] at this
+    rw [this]; rfl
+
+/-- non-vacuity: a uint16 developer field with its own scale 10 / offset −3 (pattern 253), raw 29 -/
+example : validatorRestoreDev stdFactory ⟨0, 0, 0x84, 10, 253, 65535, 255⟩
+    (applyValue (.uint16 29) (ofInt 10) (ofInt (IntTy.i8.toInt 253))) = .uint16 29 := by decide +kernel
 
 /-- non-vacuity (the example of the seeded change C12-3): after a developer_data_id, a description mapped to
 lap.avg_altitude (19/42, uint16, 5/500) and one mapped to session.avg_stroke_distance (18/42, uint16, 100), and a lap
